@@ -576,7 +576,7 @@ type OutCase struct {
 	CRLF    bool      `json:"crlf"`    // Config.NewlineOutput = CRLF: records end in \r\n, which the input mode accepts
 }
 
-var outPieces = []string{"a", "b", ",", ";", "|", "\t", "\"", "\n", " ", "", "é", "\x00", "\xff", "x y", "#", "12", "'"}
+var outPieces = []string{"a", "b", ",", ";", "|", "\t", "\"", "\n", " ", "", "é", "\x00", "\xff", "x y", "#", "12", "'", "\ufeff", "\xef\xbb", "\\.", "\v"}
 
 func genOut(t *rapid.T) OutCase {
 	c := OutCase{Sep: rapid.SampledFrom([]string{",", ",", ";", "|", "é", "\t"}).Draw(t, "sep"), Rebuild: rapid.IntRange(0, 2).Draw(t, "rebuild") == 0, CRLF: rapid.IntRange(0, 2).Draw(t, "crlf") == 0}
